@@ -13,7 +13,7 @@ use serde_json::{json, Value};
 use std::collections::{BTreeMap, HashSet};
 
 pub const PATHS: &[&str] = &["/a", "/A", "/a b", "/a%20b", "/é", "/a\"q", "/a<b>", "/a+b"];
-pub const PARAMS: &[&str] = &["a=1", "b=2", "a=3", "c=", "d", "e=x%20y", "f=x+y", "g=é", "utm_source=z", "ref=r", "B=2", "h=1%2B2", "i=x%26", "é=1", "z=9"];
+pub const PARAMS: &[&str] = &["a=1", "b=2", "a=3", "c=", "d", "e=x%20y", "f=x+y", "g=é", "utm_source=z", "ref=r", "B=2", "h=1%2B2", "i=x%26", "é=1", "z=9", "a2=5"];
 
 #[derive(Clone, Debug, serde::Serialize, serde::Deserialize)]
 pub struct Case {
@@ -21,6 +21,9 @@ pub struct Case {
     pub marketing_set: usize,
     pub path: String,
     pub params: Vec<String>,
+    /// the rule declares a marker that its path and query do not use (the source is still a literal URL)
+    #[serde(default)]
+    pub unused_marker: bool,
 }
 
 pub fn config(flags: u32, marketing_set: usize) -> RouterConfig {
@@ -49,8 +52,14 @@ fn url(path: &str, params: &[String]) -> String {
 }
 
 fn rule_for(path: &str, params: &[String], target: &str) -> Rule {
+    rule_for_m(path, params, target, false)
+}
+
+fn rule_for_m(path: &str, params: &[String], target: &str, unused_marker: bool) -> Rule {
     let query = if params.is_empty() { Value::Null } else { json!(params.join("&")) };
+    let markers = if unused_marker { json!([{"name": "unusedmarker", "regex": "[a-z]+", "transformers": []}]) } else { json!([]) };
     serde_json::from_value(json!({
+        "markers": markers,
         "id": "r", "source": {"scheme": null, "host": null, "ips": null, "path": path, "query": query, "headers": null, "methods": null,
         "exclude_methods": null, "response_status_codes": null, "exclude_response_status_codes": null, "sampling": null},
         "target": target, "status_code": 301, "rank": 1, "body_filters": null, "header_filters": null, "log_override": null, "reset": null, "stop": null,
@@ -128,12 +137,14 @@ pub fn check_case(case: &Case) -> Vec<(String, String)> {
     let mut out = Vec::new();
     let u = url(&case.path, &case.params);
     let flags = format!(
-        "ignore_marketing={},ignore_case={}",
-        rc.ignore_marketing_query_params, rc.ignore_path_and_query_case
+        "ignore_marketing={},ignore_case={}{}",
+        rc.ignore_marketing_query_params,
+        rc.ignore_path_and_query_case,
+        if case.unused_marker { ",rule-declares-an-unused-marker" } else { "" }
     );
     let class = url_class(&rc, &case.params);
     let mut router = Router::<Rule>::from_config(rc.clone());
-    router.insert(rule_for(&case.path, &case.params, "/t"));
+    router.insert(rule_for_m(&case.path, &case.params, "/t", case.unused_marker));
     // keys whose sorted order changes when they are lower-cased (sorting happens before lower-casing)
     let order_depends_on_case = {
         let keys: Vec<&str> = case.params.iter().map(|p| key_of(p)).collect();
@@ -337,7 +348,10 @@ pub fn run(tier: Tier) -> i32 {
         for marketing_set in 0..2usize {
             for path in PATHS {
                 for params in &lists {
-                    cases.push(Case { flags, marketing_set, path: path.to_string(), params: params.clone() });
+                    cases.push(Case { flags, marketing_set, path: path.to_string(), params: params.clone(), unused_marker: false });
+                    if params.len() <= 1 {
+                        cases.push(Case { flags, marketing_set, path: path.to_string(), params: params.clone(), unused_marker: true });
+                    }
                 }
             }
         }
